@@ -502,6 +502,52 @@ def rule_cache_barriers(ctx):
                     anchor = "%s|%s" % (b.id, vname)
                     r.check(not back, anchor, "continues-scan", "update event %s ends the scan" % vname, "the scan continues past the update event %s: an answer cached before the update can be returned after it" % vname, sw.loc())
                     r.check(not somes, anchor, "answers", "no answer is produced on the %s arm" % vname, "an answer is produced on the update event %s" % vname, sw.loc())
+    # scans written over a view of the log: `log.iter().rev().map_while(Event::as_query_result)` - the barrier is the named function
+    for epath, upd in sorted(enums.items()):
+        adt = prog.adt(epath)
+        for b in prog.lib_bodies():
+            if b.kind == "closure" or not b.ret_ty.startswith("core::option::Option<"):
+                continue
+            sws = []
+            for sw in switch_sites(b):
+                subj = switch_subject(b, sw)
+                if subj and subj[1]:
+                    ty = place_ty(b, subj[0]).replace("&", "").strip()
+                    if ty.startswith(epath + "<") or ty == epath:
+                        sws.append(sw)
+            if not sws:
+                continue
+            users = [(y, cs) for y in prog.lib_bodies() for cs in y.calls() if callee_of(cs) and b.path in (callee_of(cs).get("fn_args") or []) and re.search(r"Iterator::(map_while|take_while)$", callee_decl(callee_of(cs)) or "")]
+            if not users:
+                continue
+
+            def stops(region, cl=b):
+                vals = set()
+                for x in region:
+                    for st in cl.blocks[x]["stmts"]:
+                        if st["k"] == "assign" and st["dst"]["l"] == 0 and not st["dst"]["p"]:
+                            if st["rv"]["k"] == "aggregate" and st["rv"]["agg"].get("variant") == "None":
+                                vals.add(False)
+                            elif st["rv"]["k"] == "use" and (op_const(st["rv"]["ops"][0]) or {}).get("bool") is False:
+                                vals.add(False)
+                            else:
+                                vals.add("?")
+                return vals == {False}
+
+            barrier = set()
+            for sw in sws:
+                barrier |= _arm_values(b, sw, adt, sorted(upd), stops)
+            # every consumer of the view is a scan behind this barrier
+            consumers_ = set()
+            for y, cs in users:
+                fn_y = prog.enclosing_fn(y)
+                _, rc, _ = data_deps(fn_y, {"l": 0, "p": []}) if y is fn_y else (None, [], None)
+                cons = prog.callers_of(fn_y) if any((c.bb, c.si) == (cs.bb, cs.si) for c in rc) else []
+                for c2 in cons or [cs]:
+                    consumers_.add((c2.body.id, c2.bb))
+            n_scans += len(consumers_)
+            for vname in sorted(upd):
+                r.check(vname in barrier, "%s|%s" % (b.id, vname), "continues-scan", "update event %s ends the view of the log that the look-ups scan" % vname, "the view of the log the cache look-ups scan does not end at the update event %s: an answer cached before the update can be returned after it" % vname, b.loc())
     r.floor(n_scans, 4, "cache look-up scans (2 encoders x credulous/skeptical)")
 
 
